@@ -311,6 +311,8 @@ class LoadEngine(object):
             w, (c.scp.TimeoutError, c.mcmod.SpiNNakerLoadingError),
             c.mc.load_application, *args, **kwargs)
         self.n_loads += 1
+        if status != "ok":
+            c.settle()
         # -- fills: well-formedness and what each one selected ---------
         fills = self.split_fills(self.dedup(m.ff_log))
         per_binary = {}
